@@ -51,6 +51,8 @@ NAME = "ClientSkel"
 # (Lean name, class, C++ function) in source order
 CONNECTOR_FUNCTIONS = ["start", "startCycleInLoop", "startInLoop", "stop", "stopInLoop", "connect", "restart",
                        "connecting", "removeAndResetChannel", "resetChannel", "handleWrite", "handleError", "retry"]
+# helpers that need not exist (a tree without them gets the empty skeleton: the tie with the declared one then fails)
+OPTIONAL_CONNECTOR_FUNCTIONS = ["cancelRetryTimer"]
 DETAIL_FUNCTIONS = [("detailRemoveConnection", "removeConnection"), ("detailRemoveConnector", "removeConnector")]
 CLIENT_FUNCTIONS = [("dtor", "~TcpClient"), ("clientConnect", "connect"), ("clientDisconnect", "disconnect"),
                     ("clientStop", "stop"), ("newConnection", "newConnection"), ("removeConnection", "removeConnection")]
@@ -84,7 +86,7 @@ VALUE_TYPES = ("std::", "const std::", "shared_ptr<", "const shared_ptr<", "weak
                "muduo::string", "string", "basic_string<", "muduo::Timestamp", "Timestamp", "muduo::net::TimerCallback",
                "TimerCallback", "muduo::net::EventLoop::Functor", "Functor", "muduo::net::InetAddress", "InetAddress",
                "muduo::net::CloseCallback", "CloseCallback", "const muduo::net::CloseCallback",
-               "muduo::net::Channel::EventCallback", "EventCallback", "muduo::net::ConnectionCallback",
+               "muduo::net::Channel::EventCallback", "EventCallback", "muduo::net::ConnectionCallback", "muduo::net::TimerId", "TimerId",
                "muduo::net::MessageCallback", "muduo::net::WriteCompleteCallback", "typename _Bind_helper<")
 LOCK_TYPES = ("muduo::MutexLockGuard", "MutexLockGuard")
 ARITH = ("int", "long", "unsigned", "size_t", "ssize_t", "bool", "double", "float", "char", "short", "int64_t", "uint64_t",
@@ -427,6 +429,15 @@ class Walker:
                     return None, False                                  # I2
                 if arrow and obj in LOOPS and nm in HANDOFF:
                     return self.handoff(n, HANDOFF[nm]), False
+                if arrow and obj in LOOPS and nm == "cancel":
+                    # `loop_->cancel(<TimerId member>)`: the timer named by that member will not run
+                    a = peel(args[0]) if len(args) == 1 else {}
+                    if a.get("kind") in CTOR_KINDS and len(kids(a)) == 1:          # TimerId is passed by value (a copy)
+                        a = peel(kids(a)[0])
+                    tm = this_member(a) if a else None
+                    if tm is None:
+                        self.err("loop_->cancel(..) of something that is not a member")
+                    return ".cancelTimer %s" % lean_str(tm), False
                 if arrow and nm in ON_OPS.get(obj, ()):
                     if len(args) == 1 and any(x.get("kind") == "CallExpr" and callee_name(x) == "bind" for x in walk(args[0])):
                         return ".on %s %s %s" % (lean_str(obj), lean_str(nm), lean_str("bind " + self.functor_of(args[0], nm))), False
@@ -716,6 +727,9 @@ def generate():
     out = [HEADER % "muduo/net/Connector.cc, TcpClient.cc", "import MuduoVerif.Model.ClientSkelDecl\n", HEAD_DOC,
            "namespace MuduoVerif.Gen.ClientSkel", "open MuduoVerif.ClientSkel\n"]
     todo = [(f, "Connector", "Connector", the_function(docs, f)) for f in CONNECTOR_FUNCTIONS]
+    from ..extract import functions
+    missing = [f for f in OPTIONAL_CONNECTOR_FUNCTIONS if not functions(docs, f)]
+    todo += [(f, "Connector", "Connector", the_function(docs, f)) for f in OPTIONAL_CONNECTOR_FUNCTIONS if f not in missing]
     todo += [(lean, "detail", "detail", the_function(ddocs, cxx)) for lean, cxx in DETAIL_FUNCTIONS]
     todo += [(lean, "TcpClient", "TcpClient", the_function(cdocs, cxx)) for lean, cxx in CLIENT_FUNCTIONS]
     for lean, tu, cls, fn in todo:
@@ -728,5 +742,7 @@ def generate():
             out.append("def %s : List Skel :=\n  [\n%s\n  ]\n" % (lean, render(items, 4)))
         else:
             out.append("def %s : List Skel := []\n" % lean)
+    for f in missing:
+        out.append("/-- `Connector::%s`: not defined in the source -/\ndef %s : List Skel := []\n" % (f, f))
     out.append("end MuduoVerif.Gen.ClientSkel")
     return "\n".join(out) + "\n"
